@@ -192,10 +192,68 @@ def check_function(label, src, acc: Acc):
         acc.outcomes.add(len(dot))
 
 
+# statement texts with characters that mean something to a formatter, to DOT or to a record label
+TEXT_PROGRAMS = {
+    "dict_display": "def f(a):\n    d = {1: 2, 'k': a}\n    if a:\n        d = {}\n    return d\n",
+    "set_and_comprehension": "def f(a):\n    s = {a, 1}\n    if a:\n        s = {x: [y for y in s] for x in s}\n    return s\n",
+    "fstring": "def f(a):\n    s = f'{a}-{a!r:>{a}}'\n    if a:\n        s = f'{{literal}} {a}'\n    return s\n",
+    "format_calls": "def f(a):\n    s = '%s and %(k)s %%' % a\n    if a:\n        s = '{} {0} {name} {block}'.format(a)\n    return s\n",
+    "quotes": "def f(a):\n    s = 'it\\'s \"quoted\"'\n    if a:\n        s = \"dq 'x'\"\n    return s\n",
+    "backslashes": "def f(a):\n    s = 'a\\\\b\\n\\t'\n    if a:\n        s = r'\\d+\\l\\r\\N'\n    return s\n",
+    "record_characters": "def f(a):\n    s = (a < 1) | (2 > a)\n    if a:\n        s = '<x>|{y}|[z]'\n    return s\n",
+    "non_ascii": "def f(a):\n    s = 'h\u00e9llo \u2192 \u2200'\n    if a:\n        s = 'na\u00efve'\n    return s\n",
+    "tests_with_braces": "def f(a):\n    if a in {1, 2}:\n        return {a: a}\n    while a != {}:\n        a = {}\n    return f'{a}'\n",
+    "percent_and_hash": "def f(a):\n    s = a % 3  # comment\n    if a:\n        s = '#%d' % a\n    return s\n",
+    "long_statement": "def f(a):\n    s = " + " + ".join(f"a * {i}" for i in range(60)) + "\n    if a:\n        s = 0\n    return s\n",
+    "semicolon_colon": "def f(a):\n    s = a[1:2]; t = a[::2]\n    if a:\n        s = {'k': lambda q: q}\n    return s\n",
+    "for_with_braces": "def f(a):\n    for x in {1: 'a'}.items():\n        a = f'{x}'\n    return a\n",
+}
+
+
+def check_source(label, src, acc: Acc):
+    """Graphs of the SOURCE front end whose statement texts contain braces, quotes, backslashes, %, <, >, |, non-ASCII."""
+    from numba_scfg.core.datastructures.ast_transforms import AST2SCFG
+    from numba_scfg.rendering.rendering import SCFGRenderer
+    prime()
+    try:
+        scfg = AST2SCFG(src)
+    except Exception:  # noqa: BLE001  (C07/C08/C11)
+        acc.counters["source_front_end_raised(C07)"] += 1
+        return
+    steps = (("0", lambda: None), ("J", scfg.join_returns), ("JL", scfg.restructure_loop), ("JLB", scfg.restructure_branch))
+    for stage, fn in steps:
+        try:
+            guarded(fn)
+        except Exception:  # noqa: BLE001  (C02)
+            acc.counters["source_stage_raised(C02)"] += 1
+            return
+        seen = set()
+
+        def report(clause, detail, site=""):
+            if clause in seen:
+                return
+            seen.add(clause)
+            acc.viol(PROP, f"{PROP}/source/{clause}", f"{label}: {detail}", (src, stage), site=site or stage,
+                     case={"kind": "source", "label": label, "source": src, "stage": stage})
+        try:
+            dot = SCFGRenderer(scfg).render_scfg().source
+        except Exception as e:  # noqa: BLE001
+            et, site = exc_fingerprint(e)
+            report(f"render-raises/{et}", f"SCFGRenderer raised {et}: {str(e)[:100]} at {site}", site=site)
+            continue
+        n = check_dot(dot, scfg, report, "→")
+        acc.states += 1
+        acc.transitions += n or 0
+        acc.outcomes.add(len(dot))
+
+
 def _work(chunk):
     acc = Acc()
     for label, src in chunk:
-        check_function(label, src, acc)
+        if label.startswith("TEXT/"):
+            check_source(label, src, acc)
+        else:
+            check_function(label, src, acc)
     return acc
 
 
@@ -205,11 +263,14 @@ def run(tier: str, seed: int):
     progs = rotate(list(skeleton_sources(2 if tier == "quick" else 3, "marked", loop_else_upto=2)), seed)
     if tier == "quick":
         progs = [p for i, p in enumerate(progs)]
-    for r in shard_map(_work, [progs[i:i + 200] for i in range(0, len(progs), 200)]):
+    from ..progs import all_target_programs
+    texts = [(f"TEXT/{k}", v) for k, v in TEXT_PROGRAMS.items()] + [(f"TEXT/{k}", v) for k, v in all_target_programs()]
+    for r in shard_map(_work, [progs[i:i + 200] for i in range(0, len(progs), 200)] + [texts[i:i + 10] for i in range(0, len(texts), 10)]):
         acc.merge(r)
     cov = {"rule": "SCFGRenderer DOT source of every closed CFG (plain and AST payload) x {input, J, JL, JLB}, and ByteFlowRenderer DOT source of "
                    "every skeleton function's bytecode graph at the same prefixes, parsed and compared with the hierarchy: nodes, cluster tree, "
-                   "solid/dashed edge multisets (edges to regions drawn to the innermost header), labels; a state is one rendered drawing, a "
+                   "solid/dashed edge multisets (edges to regions drawn to the innermost header), labels; plus graphs of the source front end "
+                   "whose statement texts contain braces, quotes, backslashes, %, <, >, |, non-ASCII; a state is one rendered drawing, a "
                    "transition one drawn edge",
            "bounds": {"E_max_blocks": spec["E"], "lists": {k: len(v) for k, v in spec["LISTS"].items()}, "byteflow_programs": len(progs)}}
     return {"acc": acc, "coverage": cov, "assumptions": ["only the DOT text is examined (no dot binary, viewer or PDF)"]}
@@ -217,7 +278,9 @@ def run(tier: str, seed: int):
 
 def replay(case) -> Acc:
     acc = Acc()
-    if case.get("kind") == "function":
+    if case.get("kind") == "source":
+        check_source(case["label"], case["source"], acc)
+    elif case.get("kind") == "function":
         check_function(case["label"], case["source"], acc)
     else:
         check_graph(tuple(tuple(r) for r in case["graph"]), case.get("family", "replay"), acc, {"payloads": (case.get("payload", "basic"),)})
